@@ -48,7 +48,7 @@ class IndexMatchLoop:
         edges = st.f["in_edges"].val
         chosen = st.f["chosen_event"].val.t
         rn = sel(st, "resourcename", chosen)
-        eip = st.loc["edge_index_to_print"]
+        eip = V.to_opt(st.loc["edge_index_to_print"], VOpt(z3.BoolVal(False), Num(0)))
         # position of the chosen token in its family = index of its edge
         fam = ex.deref(st.f[self.fam_field], st)
         base = fam.at(z3.IntVal(0)).t
@@ -166,10 +166,14 @@ def install(lib):
                ("in-policy-ready", selection_ready(st.f["in_edge_selection"], ie.val.len)),
                ("out-policy-ready", selection_ready(st.f["out_edge_selection"], oe.val.len)),
                ("processing-delay-given", st.f["processing_delay"].tag != V.T_NONE),
+
                ("threads-within-capacity", z3.And(st.f["worker_thread_list"].len >= 0,
                                                   st.f["worker_thread_list"].len <= st.f["work_capacity"].t)),
                ("state-rep-set", z3.Not(st.f["state_rep"].isnone)),
-               ("nothing-in-hand", st.f["item_in_process"].isnone)]
+               ("nothing-in-hand", st.f["item_in_process"].isnone),
+               ("A-start.set-up-begins-at-time-0-with-all-totals-0", z3.Implies(
+                   st.f["state_rep"].val.items[0].t == -1, z3.And(
+                       st.now == 0, *[st.f[TT + k].t == 0 for k in list(MIRROR) + ["SETUP_STATE"]])))]
         out += edges_assumptions(st, "in_edges")
         return out
 
@@ -230,10 +234,35 @@ def install(lib):
     b.no_frame = True
     b.at_yield = b_at_yield
     b.shared_fields = tuple(f for f in ACC_FIELDS if f not in ("state_rep",))
-    b.rely = lambda st0, st1: [x for x in rely(st0, st1) if x[0] not in ('machine-is-past-set-up', 'this-worker-is-counted-in-the-occupancy')]
+    def brely(st0, st1):
+        out = [x for x in rely(st0, st1) if x[0] not in ('machine-is-past-set-up', 'this-worker-is-counted-in-the-occupancy',
+                                                          'threads-within-capacity')]
+        k = len(st1.ghost.get("slots", []))
+        cap = st1.f["work_capacity"].t
+        # K-Resource: every live worker and the slot this process has just been granted hold distinct granted
+        # requests of worker_thread, of which there are at most work_capacity
+        rep0 = st0.f["state_rep"]
+        insetup = z3.And(z3.Not(rep0.isnone), rep0.val.items[0].t == -1)
+        for f in ACC_FIELDS:
+            a, b_ = st0.f.get(f), st1.f.get(f)
+            if isinstance(a, Num) and isinstance(b_, Num):
+                # no other process of this node exists before the set-up is over (workers are spawned afterwards)
+                out.append(("set-up.nobody-else-touches." + f, z3.Implies(insetup, a.t == b_.t)))
+        out.append(("set-up.clock-not-started", z3.Implies(insetup, st1.f["stats.last_state_change_time"].isnone
+                                                           == st0.f["stats.last_state_change_time"].isnone)))
+        out.append(("K-Resource.threads-plus-own-slot-within-capacity", st1.f["worker_thread_list"].len + k <= cap))
+        out.append(("K-Resource.occupancy-counts-the-live-workers", z3.And(
+            st1.f["num_workers"].t >= 0, st1.f["num_workers"].t <= cap,
+            z3.Implies(z3.BoolVal(k >= 1) if not st1.ghost.get("occupancy_added") else z3.BoolVal(False),
+                       st1.f["num_workers"].t + 1 <= cap))))
+        return out
+    b.rely = brely
     b.nshards = 8
     b.loops = {0: ProcLoop(lib, "Machine", bfields, back=bback, head=bhead, props=("C03", "C08", "C10", "C15"),
-                           heaps=("thread_state", "item_to_put", "selector_kind", "edge_cls")),
+                           heaps=("thread_state", "item_to_put", "selector_kind", "edge_cls"),
+                           assume_only=lambda st: [("A-sources: the delay source and the selection policies are different objects",
+                                                    z3.And(st.f["processing_delay"].oid != st.f["in_edge_selection"].oid,
+                                                           st.f["processing_delay"].oid != st.f["out_edge_selection"].oid))]),
                1: IndexMatchLoop("in_edge_events"),
                2: CancelLoop(lambda st: st.f["chosen_event"].val.t)}
     C["Machine"]["behaviour"] = b
